@@ -237,6 +237,17 @@ class C11(Prop):
             bias = rng.randrange(3)
             alpha = HEX_ALPHABET if bias == 0 else (HEX_ALPHABET[:6] * 3 + HEX_ALPHABET)
             lines.append(case(rng.choice(["#", "#", "#", "red #"]) + "".join(rng.choice(alpha) for _ in range(n))))
+        # '#' words whose length is another multiple of 3 (or near one), every component zero-padded so that its VALUE still
+        # fits a byte: only three and six hexadecimal digits make a colour, however the components would parse
+        for k in (3, 4, 5, 6, 8):
+            for _ in range(60 if tier == "thorough" else 20):
+                comps = ["%0*x" % (k, rng.randrange(256)) for _ in range(3)]
+                w = "".join(comps)
+                if rng.randrange(3) == 0:
+                    w = w.upper()
+                lines.append(case(rng.choice(["#", "#", "blue #", "red green #"]) + w))
+                lines.append(case("#" + w[:-1]))
+                lines.append(case("#" + w + "0"))
         yield "hash-words", lines
 
         n = 40000 if tier == "thorough" else 6000
